@@ -96,7 +96,7 @@ func (e *C15Script) Run(ctx *core.Ctx, idx int) {
 		w.MutateNode(first[0], "relabelled pool=c", func(nd *corev1.Node) { nd.Labels["pool"] = "c" })
 	}
 	if restart {
-		w.Ctl = kit.NewControllers(w.S, w.Ctl.Opts)
+		w.Ctl.Rebuild()
 		w.tracef("controllers restarted")
 	}
 	rounds(8)
